@@ -88,7 +88,8 @@ def judge_state(ctx, az, steps, rng):
     info = dict(n_azimuths=len(hs), accepted=[int(v.sum()) for v in vws], with_peak=[int(r.sum()) for r in res],
                 accepted_windows_without_peak=masks_differ, steps=[s[0] for s in steps][-4:])
     for dist in ("normal", "lognormal"):
-        got = accessors(az, dist)
+        # now and then the distribution is named by its accepted alias
+        got = accessors(az, "log-normal" if (dist == "lognormal" and rng.random() < 0.25) else dist)
         want = {"mean_fn_frequency": MS.wmean(pf, wp, dist), "std_fn_frequency": MS.wstd(pf, wp, dist),
                 "mean_fn_amplitude": MS.wmean(pa, wp, dist), "std_fn_amplitude": MS.wstd(pa, wp, dist),
                 "cov_fn": MS.wcov(pf, pa, wp, dist), "mean_curve": MS.wmean(rows, wc, dist), "std_curve": MS.wstd(rows, wc, dist)}
